@@ -281,6 +281,67 @@ pub fn judge(calls: &[Call], docs: &[Vec<DocSpec>], short_seed: Option<u64>, acc
     }
 }
 
+/// The same invariant at the command line: `xt -t toml` over 1-3 inputs
+/// (files and stdin). Everything on stdout must be nothing or exactly one valid
+/// TOML document; a second input is refused with status 1.
+pub fn cli_case(seed: u64, idx: usize, acc: &mut Acc) {
+    use crate::climodel::{self, PathKind};
+    use crate::procmon::{self, Run, Scratch, Status, StdinKind, StdoutKind};
+    let mut rng = Rng::derive(seed, 0xc08c, idx as u64);
+    let mut cl = Classes::default();
+    let mut feats = Feats::default();
+    let sc = Scratch::new();
+    let mut files = std::collections::BTreeMap::new();
+    let mut paths: Vec<String> = vec![];
+    let mut stdin: Vec<u8> = vec![];
+    let n = *rng.pick(&[1usize, 2, 2, 2, 3]);
+    for i in 0..n {
+        let d = gen_docspec(&mut rng, &mut cl);
+        let src = *rng.pick(&[Fmt::Json, Fmt::Msgpack, Fmt::Yaml]);
+        if !can_spell(src, &d.val) {
+            continue;
+        }
+        let bytes = spell(src, &d.val, &mut rng, &mut feats, true);
+        if i == 1 && rng.chance(1, 4) {
+            stdin = bytes;
+            paths.push("-".into());
+            continue;
+        }
+        let name = format!("in{i}.{}", src.name());
+        sc.file(&name, &bytes);
+        files.insert(name.clone(), PathKind::Regular(bytes));
+        paths.push(name);
+    }
+    if paths.is_empty() {
+        return;
+    }
+    let mut argv: Vec<String> = vec!["-t".into(), "toml".into()];
+    argv.extend(paths.iter().cloned());
+    let exp = climodel::emulate(None, Fmt::Toml, &paths, &files, &stdin, &StdoutKind::Pipe);
+    let out = procmon::run(Run { bin: &procmon::release_bin(), argv: argv.clone(), cwd: sc.path(), stdin: StdinKind::Bytes(stdin.clone()), stdout: StdoutKind::Pipe, wall_secs: 60, cpu_secs: 20 });
+    acc.evals += 1;
+    acc.count("cli_toml_invocations");
+    acc.count(&format!("cli_inputs_{}", paths.len()));
+    if matches!(out.status, Status::Timeout | Status::SpawnError(_)) {
+        acc.inconclusive += 1;
+        return;
+    }
+    let case = || json!({"part": "cli", "seed": seed, "index": idx});
+    if let Err(e) = climodel::judge_run(&out, &exp) {
+        acc.violation(Violation { sig: format!("CLI -t toml: {}", ev::truncate(&crate::c02_mask(&e), 80)), case: case(), observed: format!("{e}; argv {:?}; status {}, stdout [{}], stderr [{}]", argv, out.status.show(), preview(&out.stdout, 160), preview(&out.stderr, 160)), expected: format!("exit {} ({})", exp.exit, exp.why) });
+        return;
+    }
+    // whatever was printed is nothing or exactly one valid TOML document
+    if !out.stdout.is_empty() {
+        if let Err(e) = crate::read::toml::read(&out.stdout) {
+            acc.violation(Violation { sig: "CLI -t toml: stdout is not one valid TOML document".into(), case: case(), observed: format!("{e}; stdout [{}]", preview(&out.stdout, 300)), expected: "nothing or exactly one valid TOML document".into() });
+        }
+    }
+    if paths.len() >= 2 && exp.stdout_floor.len() > 0 && out.status == Status::Exit(1) {
+        acc.count("cli_second_input_refused");
+    }
+}
+
 pub fn run(ctx: &Ctx) -> i32 {
     let n = ctx.size(40000, 1000000);
     let seed = ctx.seed;
@@ -303,15 +364,30 @@ pub fn run(ctx: &Ctx) -> i32 {
         let short = if i % 3 == 0 { Some(seed ^ i as u64) } else { None };
         judge(&h.calls, &h.docs, short, acc);
     });
-    let rule = format!("{} histories of 1-3 translate calls on one Translator(to=TOML), 0-3 documents per call, documents: representable tables, every non-table root type, a null / oversized integer / non-string key / binary planted at a random path of a generated tree, keys from the hostile string pools (all quoting styles), arrays of tables; sources JSON/MessagePack/YAML/TOML, slice and reader, explicit and detected, every third history through a short-write writer (1-7 bytes per call); distinct non-trivial = distinct input sequences", n);
+    let mut acc = acc;
+    let n_cli = ctx.size(400, 8000);
+    let cli = crate::par::run(n_cli, 4, |i, acc| cli_case(seed, i, acc));
+    acc.merge(cli);
+    let rule = format!("{} histories of 1-3 translate calls on one Translator(to=TOML), 0-3 documents per call, documents: representable tables, every non-table root type, a null / oversized integer / non-string key / binary planted at a random path of a generated tree, keys from the hostile string pools (all quoting styles), arrays of tables; sources JSON/MessagePack/YAML/TOML, slice and reader, explicit and detected, every third history through a short-write writer (1-7 bytes per call); plus {} command-line invocations `xt -t toml` over 1-3 inputs (files and stdin) judged by the CLI reference model and the TOML reader; distinct non-trivial = distinct input sequences", n, n_cli);
     ev::finish(
-        Finish { ctx, level: "exploration", rule, assumptions: vec!["after a refused first document the fate of later documents is not fixed by the property (either outcome accepted, byte invariant still enforced)".into(), "non-string keys, binary and non-finite floats may be accepted or refused".into()], extra: serde_json::Map::new(), exhaustive: false, min_distinct: 1000, must_reach: vec![("TOML_SECOND_USE_REFUSED".into(), 100), ("TOML_NON_TABLE_ROOT_REFUSED".into(), 100), ("histories_one_document_written".into(), 100), ("doc_kind_planted_null".into(), 100), ("doc_kind_planted_oversized_int".into(), 100)] },
+        Finish { ctx, level: "exploration", rule, assumptions: vec!["after a refused first document the fate of later documents is not fixed by the property (either outcome accepted, byte invariant still enforced)".into(), "non-string keys, binary and non-finite floats may be accepted or refused".into()], extra: serde_json::Map::new(), exhaustive: false, min_distinct: 1000, must_reach: vec![("cli_second_input_refused".into(), 20), ("TOML_SECOND_USE_REFUSED".into(), 100), ("TOML_NON_TABLE_ROOT_REFUSED".into(), 100), ("histories_one_document_written".into(), 100), ("doc_kind_planted_null".into(), 100), ("doc_kind_planted_oversized_int".into(), 100)] },
         acc,
     )
 }
 
 pub fn replay(v: &Value) -> i32 {
     let c = &v["case"];
+    if c["part"].as_str() == Some("cli") {
+        let mut acc = Acc::default();
+        cli_case(c["seed"].as_u64().unwrap_or(0), c["index"].as_u64().unwrap_or(0) as usize, &mut acc);
+        return if acc.vio_count > 0 {
+            println!("VIOLATION property=C08 replay=<this file> (reproduced): {}", acc.violations[0].observed);
+            1
+        } else {
+            println!("not reproduced");
+            0
+        };
+    }
     let Some(arr) = c["calls"].as_array() else {
         println!("bad replay case");
         return 2;
